@@ -28,6 +28,9 @@ R10.10 the shell variable the per-rank `case "$V" in` switch reads is the one
        every launcher's get_rank_cmd exports and _get_rank_ids insists on
 R10.11 an `export X=` line of _get_rp_env whose value may hold `$Y` (a string
        constant on the way into the value refers to it) follows `export Y=`
+R10.12 the per-rank rendering of _get_prep_exec only reads the described
+       entries: no in-place change of td[sig] (or of a copy which outlives
+       the rank iteration) inside the rank loop and the helpers it calls
 (R10.3 also: the named environment is sourced before the environment exports;
  the form of the stdout / stderr file name is decided by a test on that name -
  also when the names are set in a loop over a literal table and through a
@@ -2739,9 +2742,13 @@ def flatten_add(e):
 
 class Mult:
 
-    def __init__(self, prog, f, env=None, depth=0, memo=None, consts=None):
+    def __init__(self, prog, f, env=None, depth=0, memo=None, consts=None,
+                 outer=None):
         self.prog, self.f, self.depth = prog, f, depth
         self.env = env or {}
+        # the evaluator of the function f is nested in: the names f does not
+        # bind itself are the locals of that function (closure)
+        self.outer = outer
         self.consts = consts or {}  # parameter -> constant text it is bound to
         self.memo = memo if memo is not None else {}
         self.params = set(f.params)
@@ -2923,6 +2930,8 @@ class Mult:
         if nm in self.params:
             out |= set(self.env.get(nm, ()))
         ds = self.defs.get(nm, [])
+        if not ds and nm not in self.params and self.outer is not None:
+            return self.outer.name(nm, frozenset())     # a closure variable
         s2 = seen | {nm}
         carrying = 0
         augs = []
@@ -3190,15 +3199,25 @@ class Mult:
 
     def returns(self, callee, c, seen):
         env = self.param_env(callee, c, seen)
-        if not env:
+        # a function nested in this one (or in one this one is nested in)
+        # also sees the locals of that function
+        outer, g = None, self
+        while g is not None and outer is None:
+            if callee.parent is g.f:
+                outer = g
+            g = g.outer
+        if not env and outer is None:
             return set()
         key = (callee.where, tuple(sorted(env.items())))
+        if outer is not None:
+            key += ('in', tuple(sorted(outer.env.items())))
         if key in self.memo:
             return set(self.memo[key])
         if self.depth > 4:
             return {UNK}
         self.memo[key] = frozenset()
-        sub = Mult(self.prog, callee, env, self.depth + 1, self.memo)
+        sub = Mult(self.prog, callee, env, self.depth + 1, self.memo,
+                   outer=outer)
         out = set()
         for n in walk(callee.node):
             if isinstance(n, ast.Return) and n.value is not None:
@@ -3523,6 +3542,298 @@ def r10_6(prog, rep, rid='R10.6'):
         rep.stat('R10.6 command lines',
                  guard_lines(prog, rep, rid, f, sig_env(prog, f), memo))
 
+
+
+# ------------------------------------------------------------------------------
+# R10.12  the per-rank rendering only reads the described entries
+#
+# The rank loop of _get_prep_exec walks the same list of entries once per
+# rank; a plain (global) command is replicated for the rank at hand.  That
+# only works if every iteration finds the entries as they were described: an
+# in-place change made while rank N is rendered (an entry replaced by its
+# per-rank form, an element popped, a key added to a per-rank dict) is what
+# rank N+1 sees.  `ru.as_list(td[sig])` is the list of the description
+# itself, so such a change also alters the task description.
+# Decided as who-may-write: inside the rank loop (and the helpers / nested
+# functions called from it) no subscript store, `del`, list `+=` or mutating
+# method is applied to
+#   * an object of the description: td[sig], what as_list / get / [i] /
+#     iteration select out of it (level 2), or
+#   * a shallow copy of such an object (level 1) which was made outside the
+#     rank loop and so outlives the iteration.
+# What a key made of the rank index selects out of a per-rank dict (and the
+# slot under such a key) belongs to the rank at hand: no other rank reads it.
+#
+MUTATORS = {'append', 'extend', 'insert', 'pop', 'popitem', 'remove', 'clear',
+            'sort', 'reverse', 'update', 'add', 'discard', '__setitem__',
+            '__delitem__', 'appendleft', 'popleft'}
+SHALLOW = {'list', 'tuple', 'sorted', 'reversed', 'enumerate', 'zip', 'iter',
+           'set', 'frozenset', 'dict', 'filter', 'copy', 'copy.copy',
+           'OrderedDict', 'collections.OrderedDict'}
+ENTRIES_HISTORY = (
+    "ranks=3, pre_exec=['export A=1', {'1': 'module load x'}] (what "
+    '_extend_pre_exec makes of every CUDA task): while rank 0 is rendered '
+    "the entry 'export A=1' is replaced by {'0': 'export A=1'} in the list; "
+    'the branches of ranks 1 and 2 find a dict without their key and never '
+    'run `export A=1`')
+
+
+class Alias:
+    """how much of the value of an expression is the description's own data:
+    2 the object itself is part of td[sig], 1 a new container whose elements
+    are, 0 neither"""
+
+    def __init__(self, prog, M, env=None, outer=None, depth=0, rank=()):
+        self.prog, self.M, self.f = prog, M, M.f
+        self.env = env or {}
+        self.outer, self.depth = outer, depth
+        # names which hold the rank index or a key made of it
+        self.rank = set(rank)
+        grown = True
+        while grown:
+            grown = False
+            for nm, ds in M.defs.items():
+                if nm not in self.rank and any(
+                        d[0] == 'assign' and self.key_like(d[1]) and
+                        self.of_rank(d[1]) for d in ds):
+                    self.rank.add(nm)
+                    grown = True
+
+    @staticmethod
+    def key_like(e):
+        """an index or a key text made of one: not a container"""
+        if isinstance(e, ast.Call):
+            return dotted(e.func) in ('str', 'int', 'repr', 'format') or (
+                isinstance(e.func, ast.Attribute) and
+                e.func.attr in ('format', 'strip', 'zfill'))
+        return isinstance(e, (ast.Name, ast.BinOp, ast.JoinedStr))
+
+    def of_rank(self, e):
+        """e is made of the rank index: what it selects out of a per-rank
+        dict is the part of the rank at hand, no other rank reads it"""
+        g = self
+        while g is not None:
+            if any(n in g.rank and (g is self or (
+                    n not in self.M.defs and n not in self.M.params))
+                    for n in names_in(e)):
+                return True
+            g = g.outer
+        return False
+
+    def is_root(self, base, key):
+        return not derived(self.M.ev(base)) and \
+            self.M.is_key(key, frozenset())
+
+    def name(self, nm, seen):
+        if nm in seen:
+            return 0
+        ds = [d for d in self.M.defs.get(nm, [])
+              if d[0] in ('assign', 'iter', 'unpack')]
+        if not self.M.defs.get(nm):
+            if nm in self.M.params:
+                return self.env.get(nm, 0)
+            if self.outer is not None:
+                return self.outer.name(nm, frozenset())
+            return 0
+        out, s2 = 0, seen | {nm}
+        for kind, v, node, pos in ds:
+            lv = self.level(v, s2)
+            out = max(out, lv if kind == 'assign' else 2 if lv else 0)
+        return out
+
+    def level(self, e, seen=frozenset()):
+        if e is None or isinstance(e, ast.Constant):
+            return 0
+        if isinstance(e, ast.Name):
+            return self.name(e.id, seen)
+        if isinstance(e, ast.Subscript):
+            lv = self.level(e.value, seen)
+            if isinstance(e.slice, ast.Slice):
+                return 1 if lv else 0
+            if lv and self.of_rank(e.slice):
+                return 0
+            return 2 if lv or self.is_root(e.value, e.slice) else 0
+        if isinstance(e, (ast.IfExp, ast.BoolOp)):
+            vs = [e.body, e.orelse] if isinstance(e, ast.IfExp) else e.values
+            return max(self.level(v, seen) for v in vs)
+        if isinstance(e, ast.NamedExpr):
+            return self.level(e.value, seen)
+        if isinstance(e, ast.Starred):
+            return self.level(e.value, seen)
+        if isinstance(e, (ast.List, ast.Tuple, ast.Set)):
+            return 1 if any(self.level(x, seen) for x in e.elts) else 0
+        if isinstance(e, ast.Dict):
+            return 1 if any(self.level(x, seen) for x in e.values) else 0
+        if isinstance(e, (ast.ListComp, ast.SetComp, ast.GeneratorExp)):
+            return 1 if self.level(e.elt, seen) == 2 else 0
+        if isinstance(e, ast.DictComp):
+            return 1 if self.level(e.value, seen) == 2 else 0
+        if isinstance(e, ast.Call):
+            return self.call(e, seen)
+        return 0
+
+    def call(self, c, seen):
+        fn = c.func
+        name = dotted(fn) or ''
+        last = name.split('.')[-1]
+        if last == 'as_list' and c.args:
+            # (returns its argument if that is a list, wraps it otherwise)
+            return self.level(c.args[0], seen)
+        if last == 'deepcopy':
+            return 0
+        if name in SHALLOW:
+            return 1 if any(self.level(a, seen) for a in c.args) else 0
+        if name == 'next' and c.args:
+            return 2 if self.level(c.args[0], seen) else 0
+        callee = self.prog.resolve_call(self.f, c)
+        if callee is not None and callee.cls is not None and \
+                callee.name != '__init__':
+            sub = self.sub(callee, c)
+            if sub is None:
+                return 0
+            return max([sub.level(n.value) for n in walk(callee.node)
+                        if isinstance(n, ast.Return) and n.value is not None]
+                       or [0])
+        if isinstance(fn, ast.Attribute):
+            lv = self.level(fn.value, seen)
+            if fn.attr in ('get', 'pop', 'setdefault') and c.args:
+                out = 2 if lv or self.is_root(fn.value, c.args[0]) else 0
+                if lv and self.of_rank(c.args[0]):
+                    out = 0
+                return max([out] + [self.level(a, seen) for a in c.args[1:]])
+            if fn.attr in ('copy', 'values', 'items'):
+                return 1 if lv else 0
+        return 0
+
+    def sub(self, callee, c):
+        """the evaluator of callee as called by c"""
+        if self.depth > 3:
+            return None
+        ps = list(callee.params)
+        if ps and ps[0] in ('self', 'cls') and not is_static(callee):
+            ps = ps[1:]
+        env, rank = {}, set()
+        for i, a in enumerate(c.args):
+            if not isinstance(a, ast.Starred) and i < len(ps):
+                env[ps[i]] = self.level(a)
+                if self.of_rank(a):
+                    rank.add(ps[i])
+        for k in c.keywords:
+            if k.arg in ps:
+                env[k.arg] = self.level(k.value)
+                if self.of_rank(k.value):
+                    rank.add(k.arg)
+        outer, g = None, self
+        while g is not None and outer is None:
+            if callee.parent is g.f:
+                outer = g
+            g = g.outer
+        M = Mult(self.prog, callee, self.M.param_env(callee, c, frozenset()),
+                 self.M.depth + 1, self.M.memo,
+                 outer=outer.M if outer is not None else None)
+        return Alias(self.prog, M, env, outer, self.depth + 1, rank)
+
+
+def flat_targets(t):
+    if isinstance(t, (ast.Tuple, ast.List)):
+        out = []
+        for x in t.elts:
+            out += flat_targets(x)
+        return out
+    if isinstance(t, ast.Starred):
+        return flat_targets(t.value)
+    return [t]
+
+
+def inplace_ops(body):
+    """[(node, receiver expr, what, key expr or None)] of the in-place
+    changes in body"""
+    out = []
+    for n in walk(body):
+        ts = []
+        if isinstance(n, ast.Assign):
+            for t in n.targets:
+                ts += flat_targets(t)
+        elif isinstance(n, ast.AnnAssign) and n.value is not None:
+            ts = [n.target]
+        elif isinstance(n, ast.AugAssign):
+            ts = [n.target]
+            if isinstance(n.target, ast.Name) and isinstance(
+                    n.op, ast.Add) and isinstance(
+                    n.value, (ast.List, ast.ListComp, ast.Tuple)):
+                out.append((n, n.target, 'list `+=`', None))
+        elif isinstance(n, ast.Delete):
+            ts = list(n.targets)
+            for t in ts:
+                if isinstance(t, ast.Subscript):
+                    out.append((n, t.value, '`del`', t.slice))
+            ts = []
+        elif isinstance(n, ast.Call) and isinstance(n.func, ast.Attribute) \
+                and n.func.attr in MUTATORS:
+            out.append((n, n.func.value, '.%s()' % n.func.attr, None))
+        for t in ts:
+            if isinstance(t, ast.Subscript):
+                out.append((n, t.value, 'store into an element', t.slice))
+    return out
+
+
+def r10_12(prog, rep, rid='R10.12'):
+    rep.rule(rid, 'the per-rank rendering of _get_prep_exec (rank loop, the '
+             'helpers and nested functions called from it) only reads the '
+             'described entries: no in-place change of td[sig], of what '
+             'as_list / get / iteration select out of it, or of a copy made '
+             'outside the rank loop', minimum=1)
+    f = prog.method(EXE[0], EXE[1], '_get_prep_exec')
+    rep.saw(f)
+    lp, rv, _ = rank_loop(f, [it.node for it in case_labels(prog, f)])
+    memo = {}
+    A0 = Alias(prog, Mult(prog, f, sig_env(prog, f), memo=memo), rank=[rv])
+    work, seen, n_ops = [(A0, lp)], {f.where}, 0
+    while work:
+        A, body = work.pop()
+        g = A.f
+        inside = {id(x) for x in walk(body)}
+        for node, recv, what, key in inplace_ops(body):
+            n_ops += 1
+            lv = A.level(recv)
+            if key is not None and A.of_rank(key):
+                lv = 0          # (the slot of the rank at hand)
+            if lv == 1:
+                # a copy: lives as long as the scope it was made in
+                ds = A.M.defs.get(recv.id, []) if isinstance(recv, ast.Name) \
+                    else None
+                if ds is None or any(id(d[2]) in inside for d in ds
+                                     if d[0] in ('assign', 'iter', 'unpack')):
+                    lv = 0
+            rep.check(lv == 0, rid, g, '`%s` does not change the described '
+                      'entries' % short(node, 50), construct=node,
+                      message='%s changes the described entries while the '
+                      'ranks are rendered: `%s` (%s) is applied to `%s`, '
+                      'which is %s.  The branches of the following ranks are '
+                      'rendered from the changed entries (and the task '
+                      'description is altered)'
+                      % (g.qual, short(node, 70), what, short(recv, 40),
+                         'part of the description (td[...] reached through '
+                         'as_list / get / index / iteration without a copy)'
+                         if lv == 2 else 'a copy of the entries made once, '
+                         'outside the rank loop'),
+                      loc=g.loc(node), history=ENTRIES_HISTORY)
+        for c in calls_in(body):
+            callee = prog.resolve_call(g, c)
+            if callee is None or callee.cls is None or \
+                    callee.name == '__init__' or callee.where in seen:
+                continue
+            sub = A.sub(callee, c)
+            if sub is None:
+                continue
+            seen.add(callee.where)
+            rep.saw(callee)
+            if len(seen) < 8:
+                work.append((sub, callee.node))
+    rep.ok(rid, f, 'rank loop over `%s` and %d function(s) called from it: %d '
+           'in-place operation(s), none on the described entries'
+           % (short(lp.iter, 30), len(seen) - 1, n_ops))
+    rep.stat('R10.12 in-place operations', n_ops)
 
 
 # ------------------------------------------------------------------------------
@@ -4723,6 +5034,7 @@ def run(prog, rep, tier):
     rep.attempt(r10_9, prog, rep)
     rep.attempt(r10_10, prog, rep, classes)
     rep.attempt(r10_11, prog, rep)
+    rep.attempt(r10_12, prog, rep)
     if tier == 'thorough':
         # sweep: every launcher class of the package (not only the factory
         # table) and every executor class: argument quoting in get_exec
@@ -5368,4 +5680,57 @@ MUTATIONS += [
 SILENT += [
     dict(name='std site: one helper computes the four names', edits=[
         (_P, _OUT, ""), (_P, _ERR, _IO4C), (_P, _HT, _IO4 + _HT)]),
+]
+
+
+# ---- round 7 (C10-j2, C10-r13): the rank loop only reads the entries; a
+# nested helper which reads the entries of the enclosing function
+_J2   = edits_from_patch(_seeded('C10-j2')) or []
+_R13  = edits_from_patch(_seeded('C10-r13')) or []
+_EL   = "            for entry in entries:\n\n                if isinstance(entry, str):\n                    entry = {str(rank_id): entry}\n"
+_ENT  = "        entries         = ru.as_list(td[sig])\n"
+_LK   = "                for cmd in ru.as_list(entry.get(str(rank_id))):\n                    ret += '        ' + cmd_template % (cmd, sig)\n"
+_R13H = "                if isinstance(entry, str):\n                    entry = {rank_key: entry}\n"
+
+MUTATIONS += [] if not _J2 else [
+    dict(name='R10.12 plain entry converted once and stored back into the list (seed C10-j2)', rules=('R10.12',), edits=_J2),
+]
+MUTATIONS += [
+    dict(name='R10.12 converted entry stored into a copy of the list made before the rank loop', rules=('R10.12',), edits=[
+        (_E, _ENT, "        entries         = list(ru.as_list(td[sig]))\n"),
+        (_E, _EL, "            for idx, entry in enumerate(entries):\n\n                if isinstance(entry, str):\n                    entry = {str(rank_id): entry}\n                    entries[idx] = entry\n")]),
+    dict(name='R10.12 plain entry removed from the list once it is rendered', rules=('R10.12',), edits=[
+        (_E, _EL, "            for entry in list(entries):\n\n                if isinstance(entry, str):\n                    entries.remove(entry)\n                    entry = {str(rank_id): entry}\n")]),
+    dict(name='R10.12 plain entry deleted from the list by index once it is rendered', rules=('R10.12',), edits=[
+        (_E, _EL, "            for entry in list(entries):\n\n                if isinstance(entry, str):\n                    del entries[entries.index(entry)]\n                    entry = {str(rank_id): entry}\n")]),
+    dict(name='R10.12 converted entries collected by list `+=` on the described list', rules=('R10.12',), edits=[
+        (_E, _EL, "            for entry in list(entries):\n\n                if isinstance(entry, str):\n                    entry = {str(rank_id): entry}\n                    entries += [entry]\n")]),
+]
+MUTATIONS += [] if not _R13 else [
+    dict(name='R10.12 C10-r13 form: nested helper stores the converted entry back', rules=('R10.12',), edits=_R13 + [
+        (_E, "            for entry in entries:\n" + _R13H, "            for i, entry in enumerate(entries):\n                if isinstance(entry, str):\n                    entries[i] = entry = {rank_key: entry}\n")]),
+    dict(name='R10.6 C10-r13 form: commands of the nested helper joined in front of one guard', rules=('R10.6',), edits=_R13 + [
+        (_E, "            lines.extend(['        ' + template % (cmd, sig)\n                          for cmd in _rank_cmds(str(rank_id))])\n",
+             "            lines.append('        ' + template % ('; '.join(_rank_cmds(str(rank_id))), sig))\n")]),
+]
+SILENT += [
+    dict(name='entries site: enumerate over the entries, nothing stored', edits=[
+        (_E, _EL, "            for idx, entry in enumerate(entries):\n\n                if isinstance(entry, str):\n                    entry = {str(rank_id): entry}\n")]),
+    dict(name='entries site: converted entry stored into a copy made for this rank', edits=[
+        (_E, _EL, "            mine = list(entries)\n            for idx, entry in enumerate(mine):\n\n                if isinstance(entry, str):\n                    mine[idx] = entry = {str(rank_id): entry}\n")]),
+    dict(name='entries site: commands of a rank collected in a list first', edits=[
+        (_E, _EL + "\n" + _LK, "            cmds = []\n" + _EL + "\n                cmds.extend(ru.as_list(entry.get(str(rank_id))))\n\n            for cmd in cmds:\n                ret += '        ' + cmd_template % (cmd, sig)\n")]),
+    dict(name='entries site: per-rank form of all entries built once, in a new list', edits=[
+        (_E, "        ret += 'case \"$RP_RANK\" in\\n'\n", "        ranked = [e if isinstance(e, dict) else\n                  {str(r): e for r in range(n_ranks)} for e in entries]\n        ret += 'case \"$RP_RANK\" in\\n'\n"),
+        (_E, "            for entry in entries:\n\n                if isinstance(entry, str):\n", "            for entry in ranked:\n\n                if isinstance(entry, str):\n")]),
+    dict(name='entries site: commands of a rank consumed from the list under the key of that rank', edits=[
+        (_E, _EL + "\n" + _LK, _EL + "\n                cmds = ru.as_list(entry.get(str(rank_id)))\n                while cmds:\n                    cmd = cmds.pop(0)\n                    ret += '        ' + cmd_template % (cmd, sig)\n")]),
+    dict(name='entries site: value under the key of the rank normalised to a list in place', edits=[
+        (_E, _EL + "\n", _EL + "                key = str(rank_id)\n                if key in entry:\n                    entry[key] = ru.as_list(entry[key])\n\n")]),
+]
+SILENT += [] if not _R13 else [
+    dict(name='entries site: C10-r13 form, helper takes the entries as argument and copies dict entries', edits=_R13 + [
+        (_E, "        def _rank_cmds(rank_key):\n", "        def _rank_cmds(rank_key, entries):\n"),
+        (_E, "                    entry = {rank_key: entry}\n", "                    entry = {rank_key: entry}\n                else:\n                    entry = dict(entry)\n"),
+        (_E, "for cmd in _rank_cmds(str(rank_id))])", "for cmd in _rank_cmds(str(rank_id), entries)])")]),
 ]
